@@ -37,9 +37,9 @@ type poolRun struct {
 	uAlias  map[string]string
 	gidU    map[int64]string
 	p       *peer.Peer
-	works   map[string]net.Conn         // alias -> conn
+	works   map[string]net.Conn           // alias -> conn
 	started map[string]*msg.StartWorkConn // alias -> StartWorkConn received
-	ports   map[string]int              // proxy -> port
+	ports   map[string]int                // proxy -> port
 	reqs    int
 	policy  string // how ReqWorkConn is answered right now: "deliver" | "ignore" | "late"
 	stats   map[string]int
